@@ -50,6 +50,7 @@ def outStr : HT.Outcome → String
   | .ok => "1"
   | .full => "E:runtime"
   | .badAlloc => "E:bad_alloc"
+  | .invalid => "E:invalid_argument"
 
 def derefStr (m : M) (it : List Nat × Nat) : String :=
   match itDeref m.arrs it with
